@@ -101,6 +101,7 @@ type Goroutine struct {
 	why     string
 	yielded bool
 	lowPrio bool
+	noPreemptAt ssa.Instruction // the visible operation at which this goroutine was already offered a preemption
 }
 
 type undoRec struct {
@@ -124,6 +125,11 @@ type pathEnd struct {
 type Exec struct {
 	P       *Program
 	S       *Solver
+	schedBound  int        // delay bound for schedule exploration (0: one cooperative schedule)
+	schedBudget int        // delays left on the current path
+	schedRev    bool       // base schedule prefers the youngest runnable goroutine
+	forcePick   *Goroutine // goroutine chosen by a preemption decision
+	schedPoints int        // preemption decisions offered on the current path
 	globals map[*ssa.Global]*Cell
 	epoch   int32
 	undo    []undoRec
@@ -477,6 +483,13 @@ func (e *Exec) step(g *Goroutine) {
 		e.endPath("budget", fmt.Sprintf("instruction budget %d exceeded in %s", e.maxSteps, fr.fn))
 	}
 	instr := fr.block.Instrs[fr.ip]
+	if g.noPreemptAt != nil {
+		g.noPreemptAt = nil // resumed after a preemption: the operation itself runs now
+	} else if e.schedBudget > 0 && !e.inInit && isVisibleOp(instr) {
+		if e.offerPreemption(g, instr) {
+			return
+		}
+	}
 	switch in := instr.(type) {
 	case *ssa.DebugRef:
 		fr.ip++
